@@ -559,7 +559,69 @@ def r6(repo, res):
     res.ob("C14.R6", "genotype::genotype", "scan for process-dependent sources", True, expected="completed", found=f"{n} nodes scanned", key="scan")
 
 
+def r7(repo, res):
+    """A read must not write: protected tables that auto-create entries (defaultdict) may only be subscripted by their owners
+    or behind a membership test."""
+    fields = set()
+    for ref in ("sam::Sample", "coverage::Coverage"):
+        cls = repo.cls(ref)
+        for n in ast.walk(cls):
+            tgt = n.targets[0] if isinstance(n, ast.Assign) else (n.target if isinstance(n, ast.AnnAssign) else None)
+            val = getattr(n, "value", None)
+            if tgt is not None and isinstance(tgt, ast.Attribute) and isinstance(tgt.value, ast.Name) \
+                    and isinstance(val, ast.Call) and call_name(val).split(".")[-1] == "defaultdict":
+                fields.add(tgt.attr)
+    # constructor arguments carry the kind into Coverage's fields
+    cinit = repo.func("coverage::Coverage.__init__")
+    params = [a.arg for a in cinit.args.args]
+    for mname, m in repo.modules.items():
+        for c in ast.walk(m.tree):
+            if isinstance(c, ast.Call) and call_name(c) == "Coverage":
+                for i, a in enumerate(c.args):
+                    if isinstance(a, ast.Attribute) and a.attr in fields and i + 1 < len(params):
+                        pn = params[i + 1]
+                        for n in walk_local(cinit):
+                            if isinstance(n, ast.Assign) and isinstance(n.value, ast.Name) and n.value.id == pn \
+                                    and isinstance(n.targets[0], ast.Attribute):
+                                fields.add(n.targets[0].attr)
+    res.count("C14.R7:auto-creating evidence tables", len(fields))
+    hits = 0
+    prog_owner = lambda q: any(q == o or q.startswith(o + ".") for o in OWNERS["E"])  # noqa
+    for q, f in repo.all_functions():
+        if isinstance(f, ast.Lambda) or prog_owner(q):
+            continue
+        c = None
+        for n in walk_local(f):
+            if isinstance(n, ast.Subscript) and isinstance(n.ctx, ast.Load) and isinstance(n.value, ast.Attribute) \
+                    and n.value.attr in fields:
+                if c is None:
+                    c = cfg_of(f)
+                base, key = ast.unparse(n.value), ast.unparse(n.slice)
+                guarded = False
+                try:
+                    facts = c.guards(c.node_of(n))
+                except AnalysisError:
+                    facts = []
+                for t, pol in facts:
+                    if isinstance(t, ast.expr):
+                        tx = ast.unparse(t)
+                        if (tx == f"{key} in {base}" and pol is True) or (tx == f"{key} not in {base}" and pol is False):
+                            guarded = True
+                from sa.cfg import expr_guards
+                for t, pol in expr_guards(n):
+                    if ast.unparse(t) == f"{key} in {base}" and pol:
+                        guarded = True
+                if not guarded:
+                    hits += 1
+                    res.ob("C14.R7", n, n, False, expected="no unguarded subscript read of an auto-creating (defaultdict) evidence table outside its owners",
+                           found=f"`{ast.unparse(n)}` inserts an entry when `{key}` is absent",
+                           clause="no query, accessor, solver stage or output writer modifies ... the sample evidence", key=f"{q}:{ast.unparse(n)[:60]}")
+    res.ob("C14.R7", "coverage::Coverage", "scan for auto-vivifying reads", True, expected="completed",
+           found=f"tables {sorted(fields)}; {hits} unguarded reads outside owners", key="scan")
+
+
 def run(repo, res):
+    r7(repo, res)
     r6(repo, res)
     r1(repo, res)
     r2(repo, res)
@@ -623,6 +685,9 @@ MUTANTS = [
          new="        key=lambda m: (int(1000 * m.score), id(m)),\n    )\n    log.debug(\"*\" * 80)\n\n    if multiple_warn_level >= 1"),
     dict(name="R6 gene list in directory order", module="genotype", expect="C14.R6",
          old="        avail_genes = sorted(avail_genes)\n    elif gene_db == \"pharmacoscan\":", new="    elif gene_db == \"pharmacoscan\":"),
+    dict(name="R7 evidence table auto-creates entries on lookup (seeded C14_b1 shape)", module="coverage", expect="C14.R7", regex=True,
+         old=r"(?s)        self\._coverage = \{\}\n        for pos, ops in coverage\.items\(\):(.*?)        if self\._indels and \(mut\.pos, mut\.op\) in self\._indels:\n            return self\._indels\[mut\.pos, mut\.op\]\[1\]\n        if mut\.pos in self\._coverage and mut\.op in self\._coverage\[mut\.pos\]:\n            return len\(self\._coverage\[mut\.pos\]\[mut\.op\]\)\n        else:\n            return 0",
+         new=r"        import collections\n        self._coverage = collections.defaultdict(dict)\n        for pos, ops in coverage.items():\1        if self._indels and (mut.pos, mut.op) in self._indels:\n            return self._indels[mut.pos, mut.op][1]\n        return len(self._coverage[mut.pos].get(mut.op, []))"),
     dict(name="R5 failing gene aborts the run", module="genotype", expect="C14.R5",
          old="            except AldyException as ex:\n                log.error(f\"Failed gene {a.upper()}\")",
          new="            except AldyException as ex:\n                raise\n                log.error(f\"Failed gene {a.upper()}\")"),
